@@ -21,7 +21,7 @@ RULE = (
     "activity x logging configuration; hash seed unset; hash seed 1) and all digests must equal the baseline. evaluations = seeded calls "
     "compared with their baseline; distinct_nontrivial = distinct (cell, algorithm, prelude, logging configuration / hash seed) tuples"
 )
-REQUIRED = {"calls_compared": 90, "logging_configs_compared": 20, "dirty_history_compared": 30, "hashseed_compared": 16, "fit_cases": 5, "personalize_cases": 3, "reused_settings_compared": 4}
+REQUIRED = {"calls_compared": 90, "logging_configs_compared": 20, "dirty_history_compared": 30, "hashseed_compared": 16, "fit_cases": 5, "personalize_cases": 3, "reused_settings_compared": 4, "simulate_cases_table_driven": 1}
 ASSUMPTIONS = [
     "bit-identity of sha256 digests over tensor bytes; matplotlib backend Agg; logs written under a per-case temporary directory",
     "logging grid restricted to what the settings class accepts (plot periodicity a multiple of save periodicity)",
@@ -105,6 +105,10 @@ def run_shard(spec, ctx):
         ctx.count(f"seed_class_{'zero' if seed_call == 0 else 'other'}")
         base_job = {"cell": list(cell), "cohort_seed": int(rng.integers(1 << 30)), "what": what, "seed": seed_call, "settings": settings, "tmp": tmp}
         case = {"index": i, "cell": list(map(str, cell)), "what": what, "settings": settings, "seed": seed_call}
+        if what == "simulate":
+            base_job["sim_design"] = case["sim_design"] = ("random", "table")[(spec["k"] + i) % 2]
+            if base_job["sim_design"] == "table":
+                ctx.count("simulate_cases_table_driven")
         try:
             # (a) fresh baseline
             base = _run_worker(dict(base_job, variants=[{"prelude": [], "logs": None}]), 0, 900)
